@@ -224,7 +224,8 @@ def real_debiasers():
 def more_debiasers():
     """name -> factory: the deterministic precipitation debiaser whose fit runs an optimiser (QuantileDeltaMapping pr: censored gamma,
     Nelder-Mead; fit + ppf only), and running-window debiasers that need the time arrays passed through apply(**kwargs)"""
-    from ibicus.debias import LinearScaling, QuantileDeltaMapping, QuantileMapping, ScaledDistributionMapping
+    import scipy.stats
+    from ibicus.debias import ISIMIP, LinearScaling, QuantileDeltaMapping, QuantileMapping, ScaledDistributionMapping
 
     yoff = dict(running_window_mode=False, running_window_mode_over_years_of_cm_future=False)
     rw = dict(running_window_mode=True, running_window_length=31, running_window_step_length=7)
@@ -235,7 +236,45 @@ def more_debiasers():
         "rw/WindowProbe": lambda: WindowProbe(**rw),
         "rw/DeltaChange": lambda: DeltaChange.from_variable("tas", **rw),
         "rw/LinearScaling": lambda: LinearScaling.from_variable("tas", **rw),
+        # ISIMIP with the distributions that step 6 treats specially (weibull_min, rice), with and without BOTH thresholds; month-wise
+        "isimip/sfcWind-both": lambda: ISIMIP.from_variable("sfcWind", upper_bound=60.0, upper_threshold=59.99, running_window_mode=False),
+        "isimip/rice-both": lambda: ISIMIP.from_variable("sfcWind", distribution=scipy.stats.rice, upper_bound=60.0, upper_threshold=59.99,
+                                                         running_window_mode=False),
+        "isimip/sfcWind-stock": lambda: ISIMIP.from_variable("sfcWind", running_window_mode=False),
+        "isimip/tasrange-stock": lambda: ISIMIP.from_variable("tasrange", running_window_mode=False),
+        "isimip/tasrange-both": lambda: ISIMIP.from_variable("tasrange", upper_bound=60.0, upper_threshold=59.99, running_window_mode=False),
     }
+
+
+def wind_grid(nprs, T, nx, ny, scale, k):
+    """wind-speed-like data strictly inside (lower threshold, upper threshold) of the configurations above: nothing is randomised"""
+    return np.clip(scale * nprs.weibull(k, size=(T, nx, ny)), 0.05, 55.0)
+
+
+def pickle_roundtrip_differs(mk, o, h, f, **kw):
+    """the debiaser after pickle.loads(pickle.dumps(.)) — what a pool worker receives — must treat a location exactly like the original.
+    returns None or a description of the difference"""
+    import pickle
+
+    def run(d):
+        with warnings.catch_warnings():
+            warnings.simplefilter("ignore")
+            try:
+                return ("ok", d.apply_location(o.copy(), h.copy(), f.copy(), **kw))
+            except Exception as ex:  # noqa: BLE001
+                return ("error", type(ex).__name__)
+
+    try:
+        clone = pickle.loads(pickle.dumps(mk()))
+    except Exception as ex:  # noqa: BLE001
+        return f"the debiaser cannot be pickled ({type(ex).__name__}: {safe_str(ex)[:80]})"
+    a, b = run(mk()), run(clone)
+    if a[0] != b[0] or (a[0] == "error" and a[1] != b[1]):
+        return f"original: {a[0]} {a[1] if a[0] == 'error' else ''}, pickled copy: {b[0]} {b[1] if b[0] == 'error' else ''}"
+    if a[0] == "ok" and not (np.shape(a[1]) == np.shape(b[1]) and np.array_equal(a[1], b[1], equal_nan=True)):
+        d = np.abs(np.asarray(a[1], dtype=float) - np.asarray(b[1], dtype=float)) if np.shape(a[1]) == np.shape(b[1]) else None
+        return "results differ" + (f" in {int((d > 0).sum())} of {d.size} values, max |diff| {np.nanmax(d):.3g}" if d is not None else " in shape")
+    return None
 
 
 LAYOUTS = ("C", "F", "stored[x,y,t]", "stored[y,x,t]", "strided")
